@@ -550,6 +550,7 @@ class Normalizer:
 
     def run(self):
         node = clone(self.func.node)
+        node._parent = getattr(self.func.node, "_parent", None)
         for _ in range(self.depth):
             changed = self._pass(node)
             if not changed:
@@ -563,6 +564,8 @@ class Normalizer:
         self.propagated = []
         if snap is not None and not os.environ.get("TYVERIF_NO_LOCALS"):
             ast.fix_missing_locations(node)
+            _inplace_on_new_locals(node, snap)
+            _collect_keyed_fill(node, snap)
             coalesce_aliases(node, snap)
             for _ in range(3):
                 p_ = propagate_new_temporaries(node, snap)
@@ -586,6 +589,7 @@ class Normalizer:
         if _zip_to_known_enumerate(node, self.known) and snap is not None and not os.environ.get("TYVERIF_NO_LOCALS"):
             rename_back(node, snap)
         _unzip_literal_tables(node)
+        _unroll_returned_comprehensions(node)
         _unroll_finite_reductions(node, snap if not os.environ.get("TYVERIF_NO_LOCALS") else None)
         _identity_comprehensions(node)
         _split_tuple_assignments(node, snap if not os.environ.get("TYVERIF_NO_LOCALS") else None)
@@ -599,6 +603,7 @@ class Normalizer:
                 if not p_ and not r_:
                     break
         _fuse_comprehensions(node)
+        _splice_starred_displays(node)
         if not os.environ.get("TYVERIF_NO_IFEXP"):
             _distribute_calls_over_ifexp(node)
             _expand_ifexp_statements(node, self.known)
@@ -1005,6 +1010,29 @@ def propagate_new_temporaries(fnode, snapshot):
     return done
 
 
+def _attribute_stable(fnode, attr):
+    """no method of the module other than __init__ / a property setter stores to `<obj>.attr`: a call made between the hoisting and
+    the use cannot have re-bound it"""
+    root = fnode
+    seen = 0
+    while getattr(root, "_parent", None) is not None and seen < 50:
+        root = root._parent
+        seen += 1
+    if not isinstance(root, ast.Module):
+        return False
+    for fn in ast.walk(root):
+        if not isinstance(fn, (ast.FunctionDef, ast.AsyncFunctionDef)):
+            continue
+        if fn.name == "__init__" or any(isinstance(d, ast.Attribute) and d.attr == "setter" for d in fn.decorator_list):
+            continue
+        for n in ast.walk(fn):
+            if isinstance(n, ast.Attribute) and n.attr == attr and isinstance(n.ctx, (ast.Store, ast.Del)):
+                return False
+            if isinstance(n, ast.Call) and isinstance(n.func, ast.Name) and n.func.id in ("setattr", "delattr"):
+                return False
+    return True
+
+
 def _try_propagate(fnode, blk, i, name):
     st = blk[i]
     # exactly one binding of the name in the whole function
@@ -1028,8 +1056,14 @@ def _try_propagate(fnode, blk, i, name):
         return False
     # an object that is modified through the name (accumulator, buffer) is not a temporary for a value
     load_ids = {id(l) for l in loads}
+    # (`h = self.handler`: a second name for an object that exists anyway - writing the attribute chain out keeps its identity)
+    chain = value
+    while isinstance(chain, ast.Attribute):
+        chain = chain.value
+    alias_of_attribute = isinstance(value, ast.Attribute) and isinstance(chain, ast.Name) and chain.id in ("self", "cls") \
+        and _attribute_stable(fnode, value.attr)
     for n in ast.walk(fnode):
-        if isinstance(n, ast.Call) and isinstance(n.func, ast.Attribute) and n.func.attr in MUTATORS:
+        if isinstance(n, ast.Call) and isinstance(n.func, ast.Attribute) and n.func.attr in MUTATORS and not alias_of_attribute:
             b = n.func.value
             while isinstance(b, (ast.Subscript, ast.Attribute)):
                 b = b.value
@@ -1072,6 +1106,9 @@ def _try_propagate(fnode, blk, i, name):
     deps = {n.id for n in ast.walk(value) if isinstance(n, ast.Name)} - own      # a comprehension's loop variables are its own
     dep_attrs = {ast.unparse(n) for n in ast.walk(value) if isinstance(n, ast.Attribute)}
     last = max(k for k, s in enumerate(rest) if any(id(n) in {id(l) for l in loads} for n in ast.walk(s)))
+    # a hoisted bound-method look-up (`pop = queue.popleft`), used only by calling it
+    bound_method = isinstance(value, ast.Attribute) and isinstance(value.value, ast.Name) and value.attr in MUTATORS | PURE_METHODS \
+        and all(isinstance(getattr(l, "_parent", None), ast.Call) and getattr(l, "_parent").func is l for l in loads)
     for s in rest[:last + 1]:
         for n in ast.walk(s):
             if isinstance(n, ast.Name) and isinstance(n.ctx, (ast.Store, ast.Del)) and n.id in deps:
@@ -1088,6 +1125,8 @@ def _try_propagate(fnode, blk, i, name):
                 if isinstance(b, ast.Name) and b.id in deps and b.id != "self":
                     return False
             if isinstance(n, ast.Call) and isinstance(n.func, ast.Attribute) and n.func.attr in MUTATORS:
+                if bound_method:
+                    continue        # `f = obj.method`: calling mutators on obj does not change which method f is
                 if s is rest[last] and all(any(id(l) == id(x) for a_ in list(n.args) + [k_.value for k_ in n.keywords] for x in ast.walk(a_))
                                            for l in loads if any(id(l) == id(x) for x in ast.walk(s))):
                     continue        # the use is an argument of the mutating call itself: evaluated before the mutation
@@ -1453,6 +1492,23 @@ def _unzip_literal_tables(fnode):
         st.value = ast.copy_location(ast.Tuple(elts=[_Subst({g.target.id: c}).visit(clone(st.value.elt)) for c in cols], ctx=ast.Load()), st.value)
 
 
+def _unroll_returned_comprehensions(fnode):
+    """return tuple(F(v) for v in (a, b))  ->  return (F(a), F(b)): a returned tuple / list built by a comprehension over a display of
+    simple elements is the display written out"""
+    for st in ast.walk(fnode):
+        if not (isinstance(st, ast.Return) and isinstance(st.value, ast.Call) and isinstance(st.value.func, ast.Name) and st.value.func.id in ("tuple", "list")
+                and len(st.value.args) == 1 and not st.value.keywords and isinstance(st.value.args[0], (ast.GeneratorExp, ast.ListComp))):
+            continue
+        comp = st.value.args[0]
+        if len(comp.generators) != 1 or comp.generators[0].ifs or not isinstance(comp.generators[0].target, ast.Name):
+            continue
+        it = comp.generators[0].iter
+        if not (isinstance(it, (ast.Tuple, ast.List)) and 1 <= len(it.elts) <= 8 and all(_simple_arg(x) for x in it.elts)) or not _pure_expr(comp.elt):
+            continue
+        elts = [_Subst({comp.generators[0].target.id: clone(x)}).visit(clone(comp.elt)) for x in it.elts]
+        st.value = ast.copy_location((ast.Tuple if st.value.func.id == "tuple" else ast.List)(elts=elts, ctx=ast.Load()), st.value)
+
+
 def _identity_comprehensions(fnode):
     """[x for x in E] -> list(E): one spelling for 'materialise the iterable';  [f(x) for x in ('a', 'b')] -> [f('a'), f('b')]"""
     class R(ast.NodeTransformer):
@@ -1619,6 +1675,182 @@ def _literal_tree(e):
 def _literal_row(e):
     """a row of a dispatch table: a tuple of literals, literal tuples and literal dicts"""
     return isinstance(e, ast.Tuple) and all(_literal_tree(x) for x in e.elts)
+
+
+def _fresh_value(v):
+    """an expression whose value is a new object (not a view of / the same object as something the caller can see)"""
+    if isinstance(v, (ast.BinOp, ast.UnaryOp, ast.Compare, ast.Constant, ast.List, ast.Dict, ast.ListComp, ast.DictComp, ast.Tuple, ast.Set, ast.JoinedStr)):
+        return True
+    if isinstance(v, ast.Call):
+        d = dotted(v.func) or ""
+        last = d.split(".")[-1]
+        if any(k.arg in ("out", "copy", "order", "subok") or k.arg is None for k in v.keywords):
+            return False        # out=: the result IS that argument; copy=False and friends may hand the argument back
+        # numpy functions that may hand back their argument or a view of it
+        if last in ("asarray", "asanyarray", "ravel", "reshape", "atleast_1d", "atleast_2d", "squeeze", "transpose", "view", "swapaxes", "moveaxis",
+                    "broadcast_to", "broadcast_arrays", "diagonal", "real", "imag", "get", "pop", "setdefault", "values", "items", "keys", "getattr"):
+            return False
+        return d.startswith(("np.", "numpy.", "math.")) or last in ("list", "dict", "set", "tuple", "sorted", "copy", "deepcopy", "array", "zeros", "ones", "empty", "full")
+    return False
+
+
+def _inplace_on_new_locals(fnode, snapshot):
+    """`x *= e` -> `x = x * e` and `np.f(x, ..., out=x)` -> `x = np.f(x, ...)` for a local x that is NEW (not in the snapshot of the
+    function), is not a parameter and is bound only to fresh values: for such an object nobody else holds a reference, so updating it
+    in place and re-binding the name cannot be told apart.  (The rules read re-bindings; parameters and known locals are left alone -
+    an in-place update of those is what the purity rules look for.)"""
+    params = {a.arg for a in fnode.args.args + fnode.args.kwonlyargs + fnode.args.posonlyargs}
+    if fnode.args.vararg:
+        params.add(fnode.args.vararg.arg)
+    if fnode.args.kwarg:
+        params.add(fnode.args.kwarg.arg)
+    binds = {}
+    bad = set()
+    for n in ast.walk(fnode):
+        if isinstance(n, ast.Assign):
+            for t in n.targets:
+                if isinstance(t, ast.Name):
+                    binds.setdefault(t.id, []).append(n.value)
+                else:
+                    for x in ast.walk(t):
+                        if isinstance(x, ast.Name) and isinstance(x.ctx, ast.Store):
+                            bad.add(x.id)
+        elif isinstance(n, (ast.For, ast.AsyncFor, ast.comprehension)):
+            for x in ast.walk(n.target):
+                if isinstance(x, ast.Name):
+                    bad.add(x.id)
+        elif isinstance(n, (ast.With, ast.AsyncWith)):
+            for it in n.items:
+                if it.optional_vars is not None:
+                    for x in ast.walk(it.optional_vars):
+                        if isinstance(x, ast.Name):
+                            bad.add(x.id)
+        elif isinstance(n, (ast.AnnAssign, ast.NamedExpr)) and isinstance(n.target, ast.Name):
+            bad.add(n.target.id)
+        elif isinstance(n, (ast.Global, ast.Nonlocal)):
+            bad.update(n.names)
+    ok = {k for k, vs in binds.items() if k not in params and k not in bad and k not in (snapshot or {}) and all(_fresh_value(v) for v in vs)}
+    if not ok:
+        return 0
+    count = 0
+
+    def rec(stmts, in_loop=False):
+        nonlocal count
+        for i, st in enumerate(stmts):
+            if isinstance(st, (ast.FunctionDef, ast.AsyncFunctionDef, ast.ClassDef)):
+                continue
+            # (inside a loop `acc += x` is an accumulation - the form the rules read - and stays)
+            if isinstance(st, ast.AugAssign) and isinstance(st.target, ast.Name) and st.target.id in ok and not in_loop:
+                new = ast.Assign(targets=[ast.Name(id=st.target.id, ctx=ast.Store())],
+                                 value=ast.BinOp(left=ast.Name(id=st.target.id, ctx=ast.Load()), op=st.op, right=st.value))
+                stmts[i] = ast.copy_location(new, st)
+                count += 1
+                continue
+            if isinstance(st, ast.Expr) and isinstance(st.value, ast.Call) and (dotted(st.value.func) or "").startswith(("np.", "numpy.")):
+                c = st.value
+                outs = [k for k in c.keywords if k.arg == "out"]
+                if len(outs) == 1 and isinstance(outs[0].value, ast.Name) and outs[0].value.id in ok and c.args \
+                        and isinstance(c.args[0], ast.Name) and c.args[0].id == outs[0].value.id:
+                    call = ast.Call(func=c.func, args=c.args, keywords=[k for k in c.keywords if k.arg != "out"])
+                    stmts[i] = ast.copy_location(ast.Assign(targets=[ast.Name(id=outs[0].value.id, ctx=ast.Store())], value=call), st)
+                    count += 1
+                    continue
+            for fld in ("body", "orelse", "finalbody"):
+                sub = getattr(st, fld, None)
+                if isinstance(sub, list) and sub and isinstance(sub[0], ast.stmt):
+                    rec(sub, in_loop or (isinstance(st, (ast.For, ast.AsyncFor, ast.While)) and fld == "body"))
+            if isinstance(st, ast.Try):
+                for h in st.handlers:
+                    rec(h.body, in_loop)
+    rec(fnode.body)
+    if count:
+        ast.fix_missing_locations(fnode)
+    return count
+
+
+def _collect_keyed_fill(fnode, snapshot):
+    """d = {}; d["a"] = x; d["b"] = y; d.update({"c": z}); d.update(e=w)  ->  d = {"a": x, "b": y, "c": z, "e": w}
+    for a NEW local d: a dictionary filled key by key right after its creation is the display written out (later entries of the same
+    key replace earlier ones, as in a display)"""
+    known = set(snapshot or ())
+    count = 0
+
+    def uses(e, name):
+        return any(isinstance(n, ast.Name) and n.id == name for n in ast.walk(e))
+
+    def rec(stmts):
+        nonlocal count
+        i = 0
+        while i < len(stmts):
+            st = stmts[i]
+            if isinstance(st, (ast.FunctionDef, ast.AsyncFunctionDef, ast.ClassDef)):
+                i += 1
+                continue
+            for fld in ("body", "orelse", "finalbody"):
+                sub = getattr(st, fld, None)
+                if isinstance(sub, list) and sub and isinstance(sub[0], ast.stmt):
+                    rec(sub)
+            if isinstance(st, ast.Try):
+                for h in st.handlers:
+                    rec(h.body)
+            if isinstance(st, ast.Assign) and len(st.targets) == 1 and isinstance(st.targets[0], ast.Name):
+                name = st.targets[0].id
+                v = st.value
+                start = None
+                if isinstance(v, ast.Dict):
+                    start = (list(v.keys), list(v.values))
+                elif isinstance(v, ast.Call) and isinstance(v.func, ast.Name) and v.func.id == "dict" and not v.args and all(k.arg for k in v.keywords):
+                    start = ([ast.Constant(k.arg) for k in v.keywords], [k.value for k in v.keywords])
+                elif isinstance(v, ast.Call) and isinstance(v.func, ast.Name) and v.func.id == "dict" and len(v.args) == 1 and not isinstance(v.args[0], ast.Starred) \
+                        and all(k.arg for k in v.keywords):
+                    start = ([None] + [ast.Constant(k.arg) for k in v.keywords], [v.args[0]] + [k.value for k in v.keywords])
+                if start is not None:
+                    keys, vals = start
+                    j = i + 1
+                    while j < len(stmts):
+                        nx = stmts[j]
+                        if isinstance(nx, ast.Assign) and len(nx.targets) == 1 and isinstance(nx.targets[0], ast.Subscript) and isinstance(nx.targets[0].value, ast.Name) \
+                                and nx.targets[0].value.id == name and isinstance(nx.targets[0].slice, ast.Constant) and not uses(nx.value, name):
+                            keys.append(nx.targets[0].slice)
+                            vals.append(nx.value)
+                        elif isinstance(nx, ast.Expr) and isinstance(nx.value, ast.Call) and isinstance(nx.value.func, ast.Attribute) and nx.value.func.attr == "update" \
+                                and isinstance(nx.value.func.value, ast.Name) and nx.value.func.value.id == name and not uses(ast.Tuple(elts=list(nx.value.args) + [k.value for k in nx.value.keywords], ctx=ast.Load()), name) \
+                                and all(k.arg for k in nx.value.keywords) and len(nx.value.args) <= 1 and (not nx.value.args or isinstance(nx.value.args[0], ast.Dict)):
+                            if nx.value.args:
+                                keys.extend(nx.value.args[0].keys)
+                                vals.extend(nx.value.args[0].values)
+                            keys.extend(ast.Constant(k.arg) for k in nx.value.keywords)
+                            vals.extend(k.value for k in nx.value.keywords)
+                        else:
+                            break
+                        j += 1
+                    if j > i + 1:
+                        st.value = ast.copy_location(ast.Dict(keys=keys, values=vals), st.value)
+                        del stmts[i + 1:j]
+                        count += 1
+            i += 1
+    rec(fnode.body)
+    if count:
+        ast.fix_missing_locations(fnode)
+    return count
+
+
+def _splice_starred_displays(fnode):
+    """(a, *(b, c)) -> (a, b, c); f(a, *(b, c)) -> f(a, b, c): a starred tuple / list display is written out in place"""
+    def splice(elts):
+        out, changed = [], False
+        for e in elts:
+            if isinstance(e, ast.Starred) and isinstance(e.value, (ast.Tuple, ast.List)) and not any(isinstance(x, ast.Starred) for x in e.value.elts):
+                out.extend(e.value.elts)
+                changed = True
+            else:
+                out.append(e)
+        return out, changed
+    for n in ast.walk(fnode):
+        if isinstance(n, (ast.Tuple, ast.List, ast.Set)) and isinstance(getattr(n, "ctx", ast.Load()), ast.Load):
+            n.elts, _ = splice(n.elts)
+        elif isinstance(n, ast.Call):
+            n.args, _ = splice(n.args)
 
 
 def _explicit_keywords(fnode):
